@@ -47,7 +47,7 @@ def make_replay(pid, h, r, failed_checks, target_dir, scratch):
             rep["counterexample"] = {"kani_playback_test": src, "values": vals}
             found = True
             import playback
-            if NATIVE_BUDGET[0] > 0:
+            if NATIVE_BUDGET[0] > 0 and not os.environ.get("VERIF_NO_NATIVE"):
                 NATIVE_BUDGET[0] -= 1
                 rep["native_replay"] = playback.run_native(h, r["fs"], src, scratch)
             else:
